@@ -1142,7 +1142,15 @@ def _norm_stages(st):
     st = list(st)
     while st and st[-1][0] == 'elect':
         st.pop()
-    return st
+    out = []
+    for s_ in st:
+        if s_[0] == 'surplus' and out and out[-1][0] == 'surplus-group':
+            out[-1] = ('surplus-group', out[-1][1] | {s_[1]}, s_[2])
+        elif s_[0] == 'surplus':
+            out.append(('surplus-group', frozenset([s_[1]]), s_[2]))
+        else:
+            out.append(s_)
+    return out
 
 
 def _stages_differ(ctx, A, B):
@@ -1158,7 +1166,7 @@ def _stages_differ(ctx, A, B):
             if frozenset(a[1]) != frozenset(b[1]):
                 return 'STRUCT', 'stage %d elects %s vs %s' % (k, sorted(a[1]), sorted(b[1]))
             continue
-        if (frozenset(a[1]) if a[0] == 'exclude' else a[1]) != (frozenset(b[1]) if b[0] == 'exclude' else b[1]):
+        if frozenset(a[1]) != frozenset(b[1]):
             return 'STRUCT', 'stage %d %s %s vs %s' % (k, a[0], a[1], b[1])
         if (a[2] is None) != (b[2] is None):
             return 'STRUCT', 'stage %d: transfer made by one side only' % k
@@ -1199,6 +1207,12 @@ def mon_C03(ctx):
         quota_ref = (nb // (ctx.seats + 1) + 1) * S
         def run(follow_impl, notes):
             return R.count(cands, ctx.seats, common.papers_from(E, S), rank, nb, follow_impl, notes)
+    elif rule in ('cfer', 'cfer-batch'):
+        from refs import cfer as R
+        S = R.S
+        quota_ref = nb * S * S // ((ctx.seats + 1) * S) + 1
+        def run(follow_impl, notes):
+            return R.count(cands, ctx.seats, common.papers_from(E, S), rank, nb, rule.endswith('batch'), follow_impl, notes)
     elif rule == 'meek-prf':
         return _c03_meek_prf(ctx, cands, rank, nb)
     elif rule == 'qpq':
